@@ -1,6 +1,6 @@
 (* Props/C06.v — placement independence. *)
 From Coq Require Import List NArith Arith Bool.
-From SKV Require Import Base.Lex Txn.WriteSet Spec.Store Spec.Cursor Spec.Machine Lsm.CompactKey Lsm.CompactKeySpec.
+From SKV Require Import Base.Lex Txn.WriteSet Spec.Store Spec.Cursor Spec.Machine Lsm.CompactKey Lsm.CompactKeySpec Lsm.CompactKey_proofs.
 Import ListNotations.
 
 (* On the specification machine physical operations change nothing (by definition of `step`);
@@ -12,6 +12,9 @@ Proof. intros s. reflexivity. Qed.
 (* compaction never invents or reorders versions, and without snapshots and versioning it keeps
    exactly the newest version (nothing when that is a hard delete at the last level: a deleted key
    never shows an older value again because every older version is dropped with the tombstone) *)
-(* PENDING re-proof after the compaction fix: C06_compact_key_sublist : compact_key_sublist_stmt *)
-(* PENDING re-proof after the compaction fix: C06_compact_key_plain : compact_key_plain_stmt *)
-(* PENDING re-proof after the compaction fix: C06_compact_key_view : compact_key_view_stmt *)
+Theorem C06_compact_key_sublist : compact_key_sublist_stmt.
+Proof. exact compact_key_sublist. Qed.
+Theorem C06_compact_key_plain : compact_key_plain_stmt.
+Proof. exact compact_key_plain. Qed.
+Theorem C06_compact_key_view : compact_key_view_stmt.
+Proof. exact compact_key_view. Qed.
